@@ -39,6 +39,8 @@ def fmt_val(v):
     None into NaN and ints into floats or numpy ints)"""
     if v is None:
         return "N"
+    if isinstance(v, tuple) and len(v) == 1 and isinstance(v[0], list):
+        v = v[0]  # see mk_mrep: a list handed out inside a 1-tuple
     if isinstance(v, list | tuple):
         return "L" + ",".join(str(int(x)) for x in v)
     if isinstance(v, float):
@@ -191,6 +193,14 @@ def mk_mrep(rep, model, idx):
         return f"x{rep[1]}"
     if rep[0] == "fn":
         f = rep[1]
+        if idx % 2 == 1:
+            # a reporter that hands out a live mutable object wrapped in an (immutable) tuple: the stored value must
+            # still be immune to later mutation of the object (fmt_val unwraps the 1-tuple again)
+            def wrapped(m):
+                v = F_eval(f, m)
+                return (v,) if isinstance(v, list) else v
+
+            return wrapped
         if idx % 3 == 0:
             return lambda m: F_eval(f, m)
         if idx % 3 == 1:
@@ -1307,6 +1317,9 @@ def gen_batch_scenario(R, nprocs=(1,), small=False):
     collect_init = R.random() < 0.5
     if collect_init:
         init.append("collect")
+    if R.random() < 0.08:
+        # a model that is already stopped when its constructor returns: batch_run must not step it at all
+        init.insert(R.randrange(len(init) + 1), "stop 0")
     body = []
     collect_step = R.random() < 0.85 or not collect_init
     pre = R.random() < 0.5
